@@ -1170,15 +1170,17 @@ impl ViCut {
 		let Val::Num(right) = right else {
 			return Err(format!("Right value {right} is not a number"))
 		};
-		Ok(Val::Num(match op {
-			BinOp::Add => left + right,
-			BinOp::Sub => left - right,
-			BinOp::Mult => left * right,
-			BinOp::Div => left / right,
-			BinOp::Mod => left % right,
-			BinOp::Pow => left.pow(right as u32),
+		let result = match op {
+			BinOp::Add => left.checked_add(right),
+			BinOp::Sub => left.checked_sub(right),
+			BinOp::Mult => left.checked_mul(right),
+			BinOp::Div | BinOp::Mod if right == 0 => return Err("Division by zero".to_string()),
+			BinOp::Div => left.checked_div(right),
+			BinOp::Mod => left.checked_rem(right),
+			BinOp::Pow => u32::try_from(right).ok().and_then(|exp| left.checked_pow(exp)),
 			BinOp::Equals => unreachable!() // Not used in this context
-		}))
+		};
+		result.map(Val::Num).ok_or_else(|| format!("Arithmetic overflow in {left} {op} {right}"))
 	}
 	pub fn mutate_var(&mut self, name: String, op: BinOp, value: Val) -> Result<(),String> {
 		if name == "buffers" {
@@ -1217,26 +1219,20 @@ impl ViCut {
 					BinOp::Equals => {
 						*var = value;
 					}
-					BinOp::Add => {
-						*var += value;
+					BinOp::Div | BinOp::Mod if value == 0 => {
+						return Err("Division by zero".to_string())
 					}
-					BinOp::Sub => {
-						*var -= value;
-					}
-					BinOp::Mult => {
-						*var *= value;
-					}
-					BinOp::Div => {
-						if value == 0 {
-							return Err("Division by zero".to_string())
-						}
-						*var /= value;
-					}
-					BinOp::Mod => {
-						*var %= value;
-					}
-					BinOp::Pow => {
-						*var = var.pow(value as u32);
+					_ => {
+						let result = match op {
+							BinOp::Add => var.checked_add(value),
+							BinOp::Sub => var.checked_sub(value),
+							BinOp::Mult => var.checked_mul(value),
+							BinOp::Div => var.checked_div(value),
+							BinOp::Mod => var.checked_rem(value),
+							BinOp::Pow => u32::try_from(value).ok().and_then(|exp| var.checked_pow(exp)),
+							BinOp::Equals => unreachable!(),
+						};
+						*var = result.ok_or_else(|| format!("Arithmetic overflow in {var} {op} {value}"))?;
 					}
 				}
 			}
